@@ -27,7 +27,7 @@ PROBES = ["foo", "kfoo", "pc", "kpc", "Mpc", "m", "km", "Msun", "yr", "foo*pc/yr
 CREATE = ["plain", "plain_foo3", "plain_foo3", "lut_copy", "from_json", "unpickle", "deepcopy", "unit_copy_deep", "cgs", "no_defaults_json"]
 OPS = ["add_foo", "add_foo_other", "add_qux_prefixable", "modify_foo", "modify_pc", "remove_pc", "remove_foo", "construct", "arith", "add_symbols", "add_constants",
        "unit_system", "pickle_roundtrip", "json_roundtrip", "mixed_mul", "mixed_add", "default_modify", "default_remove", "deepcopy_array", "convert_custom", "define_unit",
-       "fork_deepcopy", "fork_pickle", "fork_array_deepcopy", "define_on_default_copy", "mixed_grid", "list_into_registry"]
+       "fork_deepcopy", "fork_pickle", "fork_array_deepcopy", "define_on_default_copy", "mixed_grid", "list_into_registry", "define_on_empty"]
 _N = itertools.count(1)
 
 
@@ -186,6 +186,36 @@ def apply(op, i, j, regs, x):
             return set(), ("define_unit-on-private-copy-reached-default-registry", name)
         except Exception:
             pass
+        acted = set()
+    elif op == "define_on_empty":
+        # a registry created without the default symbols (still empty, or holding one symbol) is a registry like any other:
+        # define_unit / add into it land there and nowhere else
+        from unyt.unit_registry import UnitRegistry as _UR
+
+        empty = _UR(add_default_symbols=False)
+        if x % 2:
+            empty.add("vfseed", 1.0, unyt.dimensions.length)
+        name = f"vfempty{next(_N)}"
+        refused = False
+        try:
+            unyt.define_unit(name, unyt_quantity(2.0, "m") if x % 3 else (2.0, "m"), registry=empty)
+        except Exception:
+            refused = True  # (2.0, "m") names a symbol the empty registry does not have
+        if hasattr(unyt, name):
+            delattr(unyt, name)
+            return set(), ("define_unit-on-empty-registry-exported-into-unyt-namespace", name)
+        if name in DR.lut:
+            return set(), ("define_unit-on-empty-registry-reached-default-registry", name)
+        try:
+            Unit(name)
+            return set(), ("define_unit-on-empty-registry-reached-default-registry", name)
+        except Exception:
+            pass
+        if name not in empty.lut and not refused:
+            return set(), ("define_unit-on-empty-registry-did-not-land-there", name)
+        made = unyt_array([1.0, 2.0], "m", registry=empty) if "m" in empty.lut else None
+        if made is not None and made.units.registry is not empty:
+            return set(), ("constructor-ignores-empty-registry", name)
         acted = set()
     elif op == "construct":
         for s in ("kfoo", "Mfoo", "kpc", "Mpc", "foo*pc/yr", "mJ", "kqux", "foo**2", "km"):
